@@ -430,11 +430,11 @@ fn concurrent(ch: &mut Chooser, ctx: &WorkerCtx, ntasks: usize, per_task: usize,
 /// A peer that stops reading while a message larger than the socket buffers is being written, a second sender queued
 /// behind it, two minutes of (virtual) time, then the peer reads again and a third message follows. Whatever the sends
 /// returned, the byte stream must consist of whole, well-formed frames, one per successful send.
-fn stalled_exec(big_mib: &usize, ctx: &WorkerCtx) -> ExecResult {
-    let big_mib = *big_mib;
+fn stalled_exec(case: &(usize, bool), ctx: &WorkerCtx) -> ExecResult {
+    let (big_mib, dist_hdr) = *case;
     run_rt(async move {
         let mut res = ExecResult::default();
-        let mut nw = match node_world(ctx, flags_default()).await { Ok(x) => x, Err(e) => { res.violations.push(("could not establish the connection under a conforming peer".into(), json!({"error": e}))); return res; } };
+        let mut nw = match node_world(ctx, flags_default() | if dist_hdr { DIST_HDR } else { 0 }).await { Ok(x) => x, Err(e) => { res.violations.push(("could not establish the connection under a conforming peer".into(), json!({"error": e}))); return res; } };
         nw.w.gates.set_active(&[]);
         let results: Arc<Mutex<Vec<(char, bool)>>> = Arc::new(Mutex::new(vec![]));
         let mk = |tag: char, size: usize| OwnedTerm::Tuple(vec![OwnedTerm::Atom(Atom::new(tag.to_string())), OwnedTerm::Binary(vec![tag as u8; size])]);
@@ -455,9 +455,10 @@ fn stalled_exec(big_mib: &usize, ctx: &WorkerCtx) -> ExecResult {
         for _ in 0..50 { if c.is_finished() { break; } nw.w.settle(&mut nw.peer, &probe).await; }
         let (frames, rest) = nw.peer.dist_frames();
         let done = results.lock().unwrap().clone();
-        let tags: Vec<String> = frames.iter().map(|f| match read_pass_through(f) { Ok(DistMsg { payload: Some(RefVal::Tuple(t)), .. }) if t.len() == 2 => t[0].short(), Ok(_) => "other".into(), Err(_) => "MALFORMED".into() }).collect();
-        let detail = json!({"payload_mib": big_mib, "sends_returned": done.iter().map(|(t, ok)| format!("{}:{}", t, if *ok { "ok" } else { "error" })).collect::<Vec<_>>(), "frames_on_the_wire": tags, "stray_bytes_after_last_whole_frame": rest.len()});
-        if !rest.is_empty() || tags.iter().any(|t| t == "MALFORMED") {
+        let mut cache = RxCache::default();
+        let tags: Vec<String> = frames.iter().map(|f| match read_frame(f, dist_hdr, &mut cache) { Ok(DistMsg { payload: Some(RefVal::Tuple(t)), .. }) if t.len() == 2 => t[0].short(), Ok(_) => "other".into(), Err(e) => format!("MALFORMED {}", e.chars().take(120).collect::<String>()) }).collect();
+        let detail = json!({"payload_mib": big_mib, "mode": if dist_hdr { "distribution header" } else { "pass-through" }, "sends_returned": done.iter().map(|(t, ok)| format!("{}:{}", t, if *ok { "ok" } else { "error" })).collect::<Vec<_>>(), "frames_on_the_wire": tags, "stray_bytes_after_last_whole_frame": rest.len()});
+        if !rest.is_empty() || tags.iter().any(|t| t.starts_with("MALFORMED")) {
             res.violations.push(("a send that gave up left part of a frame on the wire".into(), detail.clone()));
         }
         for (t, ok) in &done {
@@ -467,6 +468,68 @@ fn stalled_exec(big_mib: &usize, ctx: &WorkerCtx) -> ExecResult {
         if done.len() != 3 { res.violations.push(("a send never returned although the peer resumed reading".into(), detail.clone())); }
         res.steps = 3;
         res.outcome = format!("stalled {:?} {:?}", done, tags);
+        res
+    })
+}
+
+/// Connection level, both framing modes: the peer stops reading while a large frame is being written, the clock moves
+/// past the I/O timeout, the peer resumes, and another operation is issued. Whatever the first operation returned,
+/// the bytes the peer has read must be whole frames: an operation that gave up after writing part of a frame must not
+/// be followed by another frame on the same stream.
+fn stalled_conn_exec(case: &(usize, bool, bool), ctx: &WorkerCtx) -> ExecResult {
+    let (big_mib, dist_hdr, raw) = *case;
+    run_rt(async move {
+        let mut res = ExecResult::default();
+        let extra = if dist_hdr { DIST_HDR } else { 0 };
+        let mut cw = match conn_world(ctx, flags_default() | extra, flags_default() | extra).await { Ok(x) => x, Err(e) => { res.violations.push(("could not establish the connection under a conforming peer".into(), json!({"error": e}))); return res; } };
+        cw.w.gates.set_active(&[]);
+        let mk = |tag: &str, size: usize| OwnedTerm::Tuple(vec![OwnedTerm::Atom(Atom::new(tag)), OwnedTerm::Binary(vec![tag.as_bytes()[0]; size])]);
+        let mut returned: Vec<String> = vec![];
+        {
+            // first operation: the peer does not read; after 600 idle rounds the clock moves two minutes on; 600 rounds
+            // later the peer reads again
+            let (msg, bytes) = (mk("A", big_mib << 20), vec![b'A'; big_mib << 20]);
+            let fut = async { if raw { cw.conn.send_raw(&bytes).await } else { cw.conn.send_message(pid_plain(1), pid_remote(10), msg).await } };
+            tokio::pin!(fut);
+            let mut round = 0u32;
+            let r = loop {
+                tokio::select! { biased; r = &mut fut => break r, _ = tokio::task::yield_now() => {
+                    cw.w.beat();
+                    round += 1;
+                    if round == 600 { tokio::time::advance(std::time::Duration::from_secs(120)).await; }
+                    if round > 1200 { cw.peer.pump(); }
+                    if round > 400_000 { break Err(edp_client::Error::InvalidStateMessage("harness: operation never returned".into())); }
+                } }
+            };
+            returned.push(format!("A:{}", match &r { Ok(()) => "ok".to_string(), Err(e) => format!("error {}", e).chars().take(60).collect() }));
+        }
+        let no_probe = || 0u64;
+        cw.w.settle(&mut cw.peer, &no_probe).await;
+        for tag in ["B", "C"] {
+            let (msg, bytes) = (mk(tag, 64), vec![tag.as_bytes()[0]; 64]);
+            let r = { let fut = async { if raw { cw.conn.send_raw(&bytes).await } else { cw.conn.send_message(pid_plain(1), pid_remote(11), msg).await } }; tokio::pin!(fut); loop { tokio::select! { biased; r = &mut fut => break r, _ = tokio::task::yield_now() => { cw.w.beat(); cw.peer.pump(); } } } };
+            returned.push(format!("{}:{}", tag, match &r { Ok(()) => "ok".to_string(), Err(e) => format!("error {}", e).chars().take(60).collect() }));
+            cw.w.settle(&mut cw.peer, &no_probe).await;
+        }
+        let (frames, rest) = cw.peer.dist_frames();
+        let mut cache = RxCache::default();
+        let tags: Vec<String> = frames.iter().map(|f| if raw {
+            if !f.is_empty() && f.iter().all(|b| *b == f[0]) && b"ABC".contains(&f[0]) { (f[0] as char).to_string() } else { "MALFORMED (not the bytes of one send_raw call)".to_string() }
+        } else { match read_frame(f, dist_hdr, &mut cache) { Ok(DistMsg { payload: Some(RefVal::Tuple(t)), .. }) if t.len() == 2 => t[0].short(), Ok(_) => "other".into(), Err(e) => format!("MALFORMED {}", e.chars().take(80).collect::<String>()) } }).collect();
+        let detail = json!({"payload_mib": big_mib, "entry_point": if raw { "send_raw" } else { "send_message" }, "mode": if dist_hdr { "distribution header" } else { "pass-through" }, "operations_returned": returned, "frames_read_by_the_peer": tags, "stray_bytes_after_last_whole_frame": rest.len()});
+        let later_ok = returned.iter().skip(1).any(|r| r.ends_with(":ok"));
+        if tags.iter().any(|t| t.starts_with("MALFORMED")) || (!rest.is_empty() && later_ok) {
+            res.violations.push(("an operation that gave up left part of a frame on the wire and a later operation wrote after it".into(), detail.clone()));
+        }
+        for r in &returned {
+            let (t, ok) = (r.chars().next().unwrap().to_string(), r.ends_with(":ok"));
+            let n = tags.iter().filter(|x| x.trim_matches('\'') == t).count();
+            if ok && n != 1 { res.violations.push(("a successful send does not correspond to exactly one frame".into(), detail.clone())); }
+            if !ok && n != 0 { res.violations.push(("a failed send's frame reached the peer".into(), detail.clone())); }
+        }
+        res.steps = 3;
+        res.outcome = format!("stalled-conn {:?} {:?}", returned, tags);
+        if std::env::var("NETMC_DEBUG").is_ok() { eprintln!("DEBUG {} raw={} hdr={} rest={}", res.outcome, raw, dist_hdr, rest.len()); }
         res
     })
 }
@@ -576,7 +639,8 @@ pub fn run(rep: &Report) -> Value {
     let st_hb: Stats = for_all(rep, "one caller's operations back to back behind a held connection", &rots, |k, ctx| held_burst_exec(k, ctx));
     let one = [0usize];
     let st_rep: Stats = for_all(rep, "repeated Node operations, after failures elsewhere", &one, |k, ctx| node_repeats_exec(k, ctx));
-    let sizes = [24usize];
+    let sizes = [(24usize, false)];
+    let st_stallc: Stats = for_all(rep, "connection level: peer stops reading in the middle of a large frame, clock passes the I/O timeout", &[(24usize, false, false), (24, true, false), (24, false, true), (24, true, true)], |k, ctx| stalled_conn_exec(k, ctx));
     let st_stall: Stats = for_all(rep, "peer stops reading in the middle of a large frame", &sizes, |k, ctx| stalled_exec(k, ctx));
     let orders = [true, false];
     let st_re: Stats = for_all(rep, "one Connection, two sessions with different negotiated framing", &orders, |o, ctx| reconnect_exec(*o, ctx));
@@ -588,7 +652,7 @@ pub fn run(rep: &Report) -> Value {
         let st = explore(rep, &name, b, std::time::Duration::from_secs(if thorough { 600 } else { 30 }), |ch, ctx| concurrent(ch, ctx, t, p, burst));
         conc.push((name, st));
     }
-    let states = st_inputs.executions + st_unc.executions + st_re.executions + st_stall.executions + st_hb.executions + st_rep.executions + conc.iter().map(|c| c.1.executions).sum::<u64>();
+    let states = st_stallc.executions + st_inputs.executions + st_unc.executions + st_re.executions + st_stall.executions + st_hb.executions + st_rep.executions + conc.iter().map(|c| c.1.executions).sum::<u64>();
     let transitions = st_inputs.transitions + st_unc.transitions + st_re.transitions + conc.iter().map(|c| c.1.transitions).sum::<u64>();
     let mut samples = vec![json!({"operation": op_list(false)[3].short()}), json!({"operation": op_list(false)[op_list(false).len() - 5].short()})];
     for c in &conc { samples.extend(c.1.samples.iter().take(1).cloned()); }
